@@ -65,6 +65,26 @@ CHECKS = {
    text="LwStates defines +, merge, slices, counts and herald insertion / removal on occupation sequences; TLC checks the laws (herald round trip for every herald position set and photon numbers, associativity, commutativity, count and slice laws) on every operand choice in scope and records each operation's result, which is compared with the real State, AnnotatedState (label order shuffled) and herald helpers (dictionary keys and positions shuffled). Immutability is probed through every accessor; dB conversions and seeded random matrices are judged by the harness.",
    note="Occupation lists of length <= 3 (4 thorough), entries <= 2, <= 2 heralds. The immutability, conversion and random-matrix clauses have no state-machine content and are harness probes. " + TB,
    technique="TLC checks the algebraic laws of LwStates on all small operands; dumped states replayed on State / AnnotatedState / herald helpers; harness probes for immutability"),
+ "C13": dict(
+   level="model_checking", design="DESIGN.md section 5 C13",
+   text="LwGates holds the exact logical matrix of every named gate and its documented success probability; TLC checks the composition rules the library uses (CNOT = H.CZ.H, CCNOT = H.CCZ.H for every target, gate algebra, unitarity of all rotation tables) as assumptions. The harness characterises every real gate circuit (all target options, rotation angles k*pi/2, phase-gate angles k*pi/4, SWAP between disjoint mode pairs) from its heralded amplitudes on all dual-rail basis inputs, normalises by the common scalar, quantises to the ring and TLC (LwGatesTrace) judges each record against the table: matrix up to a global phase, |scalar|^2 = 1, 1/9, 1/16, 1/72, no leak for heralded gates. Generic rotation angles are judged by the closed form.",
+   note="Trace validation against an exact table rather than model checking of the optics: the hard-coded CZ / CZ_Heralded / CCZ matrices contain 1/sqrt3, 2^(-1/4), sqrt(7/8), outside the ring, and are not transcribed. " + TB,
+   technique="characterisation records of the real gates validated by a TLA+ trace specification against the exact gate table; design-level composition rules checked by TLC"),
+ "C14": dict(
+   level="model_checking", design="DESIGN.md section 5 C14",
+   text="LwReck transcribes the triangular nulling schedule and the circuit Reck.map builds from it and TLC executes both EXACTLY on every monomial matrix (entries 0 or a 4th root of unity) of size 2, 3 (4 in the thorough tier) - the family that always takes the 'entry already zero' branch - checking that the schedule nulls and the mapped unit cells reproduce the matrix; the same matrices are mapped by the real Reck and structure, unitary, phase range and (as DRIFT only) the programmed phases are compared. The contract for arbitrary unitaries (identity, all permutations, DFT, block diagonal, near-degenerate around the 1e-20 threshold, Haar up to 12 modes, heralded circuits) and for error models (bounds of every drawn value, seed reproducibility, sub-unitarity) is judged numerically on the mapped circuit.",
+   note="For non-ring unitaries and random error models the specification supplies only the contract; numbers are compared at 1e-8. " + TB,
+   technique="TLC executes the transcribed nulling schedule exactly on all monomial matrices; the same inputs replayed into Reck.map; contract checks on recorded mappings"),
+ "C15": dict(
+   level="model_checking", design="DESIGN.md section 5 C15",
+   text="LwTomo defines the measurement settings ({X,Y,Z}^n with I -> Z reuse), the per-qubit basis changes (X: H, Y: H.Z.S), noiseless outcome probabilities, Pauli expectation values and the reconstructed density matrix; TLC checks rho = |psi><psi| (Hermitian, unit trace) for every state reachable by the ring gate programs in scope, including states with Y components and entangled ones. The real StateTomography runs on the corresponding lightworks circuit with a callback that verifies it receives exactly one circuit per required setting (= base + basis changes) and answers with frequencies from the harness's own permanent; rho and fidelity are compared with TLC's exact values and the base circuit must be unchanged.",
+   note="1 qubit (<= 3 gates) and 2 qubits (<= 2-3 gates; post-selected and heralded two-qubit gates). " + TB,
+   technique="TLC checks the tomography protocol on all logical programs in scope; the programs replayed through the real StateTomography with a verifying noiseless callback"),
+ "C16": dict(
+   level="model_checking", design="DESIGN.md section 5 C16",
+   text="LwTomo pins the Choi matrix to the EXPERIMENTS (TLC checks tr((rho^T x P) J) = tr(P V rho V^dagger) for all 6^n inputs and 4^n Paulis on every program in scope), shows at model level that the row-major vectorisation is not that matrix for non-symmetric V, and gives exact average gate fidelities. The real LIProcessTomography must return exactly that matrix AND agree with choi_from_unitary(V); GateFidelity must equal the formula for target V and for the identity; MLEProcessTomography must return a positive, trace-preserving matrix with fidelity >= 0.99.",
+   note="MLE quality thresholds are numeric and judged by the harness (trace preservation 5e-3 is the order of the library's own CPTP projection stopping rule). 2-qubit MLE only in the thorough tier. " + TB,
+   technique="TLC checks the defining equations of the Choi matrix and exact gate fidelities; programs replayed through the real process tomography classes"),
  "C10": dict(
    level="model_checking", design="DESIGN.md section 5 C10",
    text="LwParams (value / min / max, ParameterDict) is checked exhaustively by TLC over ALL interleavings of accepted and rejected updates (no depth bound; invariants InBounds, BoundsNumeric; action property RejectedChangesNothing) and its behaviours are replayed into real Parameter / ParameterDict objects with the full state compared after every call. LwCircuit carries parameter references in its ops and a pval variable: TLC checks LiveParams (every circuit's exact matrix is the one for the current values after ANY step, including Parameter.set, rewrites, additions, copies), FrozenProp and frames; dumped and simulated programs are replayed and U, get_all_params and compile errors compared.",
